@@ -62,6 +62,27 @@ mod verif_standins {
         trace
     }
 
+    /// C03 / C04: from every stage the customer's closing message is accepted by the merchant's close check and carries the
+    /// balances of the last state the merchant has a revocation-free claim on (pre-payment balances while a payment is in flight)
+    #[test]
+    fn standin_close_from_every_stage() {
+        let mut rng = R::seed_from_u64(1);
+        let m = merchant::Config::new(&mut rng);
+        let max = i64::MAX as u64;
+        for (cust, merch, pay) in [(100u64, 0u64, 10i64), (43, 27, 30), (max - 5, max, -5), (7, 7, 0)] {
+            let after = ((cust as i128 - pay as i128) as u64, (merch as i128 + pay as i128) as u64);
+            for close_at in [1usize, 2, 3, 4, 5] {
+                let trace = history(&m, cust, merch, pay, None, close_at);
+                let (what, bytes) = trace.last().unwrap();
+                let msg: ClosingMessage = bincode::deserialize(bytes).unwrap();
+                let want = if close_at >= 4 { after } else { (cust, merch) };
+                assert_eq!((msg.customer_balance().into_inner(), msg.merchant_balance().into_inner()), want, "STANDIN `{}`: closing message carries the wrong balances (channel {} / {}, payment {})", what, cust, merch, pay);
+                let (sig, cs) = msg.into_parts();
+                assert!(matches!(m.check_close_signature(sig, &cs), crate::Verification::Verified), "STANDIN `{}`: the merchant's close check refuses the customer's closing message (channel {} / {}, payment {})", what, cust, merch, pay);
+            }
+        }
+    }
+
     #[test]
     fn standin_restore_continues() {
         let mut rng = R::seed_from_u64(1);
